@@ -583,7 +583,7 @@ package xpath
 //@   modifies elems(ctx.actualPathStack.stack)
 //@   modifies ctx.res.runErr
 //@   ensures implies(tree_nav_err(ctx.current, old(toppath(ctx))) != nil, ctx.res.runErr == tree_nav_err(ctx.current, old(toppath(ctx))))
-//@   ensures implies(tree_nav_err(ctx.current, old(toppath(ctx))) == nil && tree_lref_err(askedNode(ctx)) != nil, ctx.res.runErr != nil)
+//@   ensures implies(tree_nav_err(ctx.current, old(toppath(ctx))) == nil && tree_lref_err(askedNode(ctx)) != nil, ctx.res.runErr == tree_lref_err(askedNode(ctx)))
 //@   ensures implies(tree_nav_err(ctx.current, old(toppath(ctx))) == nil && tree_lref_err(askedNode(ctx)) == nil, ctx.res.runErr == old(ctx.res.runErr) &&
 //@           len(pstk(ctx)) == old(len(pstk(ctx))) && toppath(ctx) != nil && isfresh(toppath(ctx)) &&
 //@           len(toppath(ctx).Elem) == len(lrefPath(ctx).Elem) && toppath(ctx).IsRootBased == lrefPath(ctx).IsRootBased &&
